@@ -178,11 +178,13 @@ class Sim:
         elif ens == "isobaric":
             mc = Isobaric(atoms, pressure=p.get("P", 0.01), **kw)
         elif ens == "isotension":
-            mc = Isotension(atoms, pressure=p.get("P", 0.01), external_stress=np.eye(3) * p.get("P", 0.01), **kw)
+            mc = Isotension(atoms, pressure=p.get("P", 0.01), external_stress=np.array(p["stress"], dtype=float) if p.get("stress") else np.eye(3) * p.get("P", 0.01), **kw)
         else:
             ex = Atoms(p["exchange"]["symbols"], positions=np.array(p["exchange"]["positions"], dtype=float))
             self.exchange_before = (ex.positions.tobytes(), ex.numbers.tobytes(), sorted(ex.arrays))
             mc = GrandCanonical(atoms, ex, chemical_potential=p.get("mu", -0.1), number_of_exchange_particles=p.get("N0", 0), **kw)
+            if p.get("accessible_volume_factor"):
+                mc.accessible_volume = p["accessible_volume_factor"] * atoms.cell.volume      # e.g. the pore volume of a framework
             self.exchange = ex
         self.mc = mc
         self.eval_snaps = []
